@@ -14,7 +14,8 @@ package suites
 //
 // Case layout of sts.scenarios / sts.policy:
 //
-//	arg0  configuration bits: D DisableSTS, L SSL, F DisableSTSFallback, S SASL PLAIN
+//	arg0  configuration bits: D DisableSTS, L SSL, F DisableSTSFallback, S SASL PLAIN,
+//	      P Config.SupportedCaps lists "sts" (the application negotiates it itself)
 //	arg1  policy installed before the first Connect: "" or "port,duration,receivedAgoSec[,failedAgoSec]"
 //	arg2… tokens: "C" starts a Connect call; "L<age>,<dial>,<hs>,<end>" starts a connection
 //	      script (age: scripted seconds that pass before the dial; dial 1/0; hs 1 ok, 0 peer
@@ -505,6 +506,9 @@ func runSTSOnce(sc stsScript) (recs []*stsConnRec, initPol string, elapsed time.
 	if stsHas(sc.bits, 'S') {
 		cfg.SASL = &girc.SASLPlain{User: "u", Pass: "p"}
 	}
+	if stsHas(sc.bits, 'P') {
+		cfg.SupportedCaps = map[string][]string{"sts": nil}
+	}
 	start := time.Now()
 	r := &stsRun{tlsConf: tconf}
 	r.c = girc.New(cfg)
@@ -683,9 +687,71 @@ func stsUsablePort(kv map[string]string) (int, bool) {
 
 func stsHasWrite(lines []string) bool { return len(lines) > 0 }
 
+func stsReqHasSTS(lines []string) bool {
+	for _, l := range lines {
+		if strings.HasPrefix(l, "REQ:") {
+			for _, h := range strings.Split(strings.TrimPrefix(l, "REQ:"), ",") {
+				if h == Hex("sts") {
+					return true
+				}
+			}
+		}
+	}
+	return false
+}
+
+// stsRenewal: what the oracle itself knows, when a dial happens, about the last time a TLS
+// connection acknowledged a duration (scripted seconds; at < 0 = nothing known).
+type stsRenewal struct{ now, at, dur int }
+
+// stsRenewals replays the scenario on the oracle's own clock (the ages of the scripts):
+// every duration acknowledged on a TLS connection (simple exchange, answered regularly)
+// restarts the policy at that moment. Anything the oracle cannot read (other shapes,
+// upgrades, dropped policies) makes it forget, so that it never claims more than it knows.
+func stsRenewals(sc stsScript, recs []*stsConnRec, disabled bool) map[[2]int]stsRenewal {
+	out := map[[2]int]stsRenewal{}
+	now, at, dur := 0, -1, 0
+	for ci, cr := range recs {
+		for li, lg := range cr.legs {
+			if ci < len(sc.connects) && li < len(sc.connects[ci]) {
+				now += sc.connects[ci][li].age
+			}
+			out[[2]int{ci, li}] = stsRenewal{now, at, dur}
+			if !lg.connected || lg.hsFailed || lg.timeout || lg.noBurst || lg.first == "-" {
+				continue
+			}
+			if len(lg.evs) == 0 {
+				continue
+			}
+			at = -1
+			if lg.first != "T" || disabled {
+				continue
+			}
+			ackIdx, kv, ok := stsSimpleExchange(lg.evs)
+			if !ok || ackIdx != len(lg.evs)-1 || !stsReqHasSTS(lg.evs[0].lines) {
+				continue
+			}
+			ack := lg.evs[ackIdx]
+			d, has := kv["duration"]
+			if !has || ack.hung || ack.closed || len(ack.lines) != 1 {
+				continue
+			}
+			if n, err := strconv.Atoi(d); err == nil {
+				at, dur = now, n
+			}
+		}
+		if !cr.polAfter.Enabled {
+			at = -1
+		}
+	}
+	return out
+}
+
 func stsOracle(sc stsScript, recs []*stsConnRec, slack time.Duration) string {
 	disabled, ssl, nofallback := stsHas(sc.bits, 'D'), stsHas(sc.bits, 'L'), stsHas(sc.bits, 'F')
+	listed := stsHas(sc.bits, 'P') // SupportedCaps lists sts: requesting it is the application's wish
 	cfgAddr := net.JoinHostPort(stsHost, strconv.Itoa(stsCfgPort))
+	renewals := stsRenewals(sc, recs, disabled)
 	for ci, cr := range recs {
 		if cr.polAfter.BeginUpgrade {
 			return fmt.Sprintf("upgrade-lost-on-close: connect %d returned %s with beginUpgrade still set", ci, cr.ret)
@@ -728,6 +794,12 @@ func stsOracle(sc stsScript, recs []*stsConnRec, slack time.Duration) string {
 					if dropped := !cr.polAfter.Enabled; dropped && !(expired && !nofallback) {
 						return fmt.Sprintf("policy-dropped: connect %d: failed dial dropped an unexpired policy or fallback was disabled", ci)
 					}
+					// the oracle's own clock: the last duration a TLS connection acknowledged
+					// restarted the policy at that (scripted) moment, whatever the client's
+					// timestamp says
+					if rn := renewals[[2]int{ci, li}]; rn.at >= 0 && int64(rn.now-rn.at)+int64(slack.Seconds())+2 <= int64(rn.dur) && !cr.polAfter.Enabled {
+						return fmt.Sprintf("policy-dropped: connect %d: failed dial %d s after the server renewed the policy for %d s dropped it", ci, rn.now-rn.at, rn.dur)
+					}
 				} else if cr.ret == "sts" {
 					return fmt.Sprintf("sts-error-without-policy: connect %d", ci)
 				}
@@ -757,7 +829,7 @@ func stsOracle(sc stsScript, recs []*stsConnRec, slack time.Duration) string {
 			if upgradedHere && (disabled || lg.first == "T") {
 				return fmt.Sprintf("upgrade-unexpected: connect %d dial %d: upgrade with DisableSTS or on a TLS connection", ci, li)
 			}
-			if disabled || ssl {
+			if (disabled || ssl) && !listed {
 				for _, ev := range lg.evs {
 					for _, l := range ev.lines {
 						if strings.HasPrefix(l, "REQ:") {
@@ -1088,6 +1160,12 @@ func genSTSScenario(r *rand.Rand) Case {
 	if sasl {
 		bits += "S"
 	}
+	if r.Intn(5) == 0 || (strings.Contains(bits, "D") && r.Intn(2) == 0) {
+		bits += "P"
+	}
+	if r.Intn(4) == 0 {
+		return genSTSRenewal(r, bits)
+	}
 	init := ""
 	switch r.Intn(6) {
 	case 0:
@@ -1109,6 +1187,40 @@ func genSTSScenario(r *rand.Rand) Case {
 	return c
 }
 
+// genSTSRenewal: a policy is learnt, its TLS connections end cleanly or not, a later TLS
+// connection acknowledges the same or another duration, time passes, a dial fails (or not).
+func genSTSRenewal(r *rand.Rand, bits string) Case {
+	durs := []int{600, 900, 3600, 60}
+	d1 := durs[r.Intn(len(durs))]
+	d2 := d1
+	if r.Intn(3) == 0 {
+		d2 = durs[r.Intn(len(durs))]
+	}
+	frac := func(d int) int { // a multiple of 5 somewhere in (0, 1.2 d)
+		return 5 * (1 + r.Intn(d*12/50))
+	}
+	end := func() string { return Pick(r, "e", "e", "c") }
+	tls := func(age, dur int, e string) []string {
+		return []string{fmt.Sprintf("L%d,1,1,%s", age, e), stsLS(fmt.Sprintf("sts=duration=%d", dur), "multi-prefix"), stsACK("sts", "multi-prefix")}
+	}
+	var c Case
+	if r.Intn(2) == 0 {
+		c = Case{bits, "", "C", "L0,1,1,c", stsLS("sts=port=6697", "multi-prefix"), stsACK("sts")}
+		c = append(c, tls(0, d1, end())...)
+	} else {
+		c = Case{bits, fmt.Sprintf("6697,%d,%d", d1, frac(d1)), "C"}
+		c = append(c, tls(0, d1, end())...)
+	}
+	n := 1 + r.Intn(2)
+	for i := 0; i < n; i++ {
+		c = append(c, "C")
+		c = append(c, tls(frac(d1), d2, end())...)
+	}
+	c = append(c, "C", fmt.Sprintf("L%d,%d,1,c", frac(d2), r.Intn(4)/3))
+	c = append(c, "C", "L0,1,1,c", stsLS("sts=port=6697"), stsACK("sts"), "L0,1,1,c")
+	return c
+}
+
 // fixed scenarios: the shapes the property's clauses talk about
 func fixedSTSScenarios() []Case {
 	up := func(extra ...string) []string {
@@ -1125,8 +1237,17 @@ func fixedSTSScenarios() []Case {
 		return c
 	}
 	var out []Case
-	for _, bits := range []string{"", "F", "S", "FS", "D", "L", "DL", "DF", "LF"} {
+	for _, bits := range []string{"", "F", "S", "FS", "D", "L", "DL", "DF", "LF", "DP", "DFP", "P", "LP", "DSP"} {
 		hd := []string{bits, ""}
+		// renewal: duration learnt, connections dropped, the same / another duration acknowledged
+		// again, the dial fails later than D after the first receipt but sooner after the renewal
+		for _, e := range []string{"e", "c"} {
+			for _, d2 := range []string{"600", "900"} {
+				out = append(out, cat(hd, up(), tlsLeg("sts=duration=600", e),
+					[]string{"C"}, []string{"L400,1,1," + e, stsLS("sts=duration="+d2, "multi-prefix"), stsACK("sts", "multi-prefix")},
+					[]string{"C", "L400,0,1,c", "C", "L0,1,1,c", stsLS("sts=port=6697"), stsACK("sts"), "L0,1,1,c"}))
+			}
+		}
 		// upgrade, persistence learnt over TLS, clean close, second and third connect
 		out = append(out, cat(hd, up(), tlsLeg("sts=duration=600,port=7000", "c"),
 			[]string{"C"}, tlsLeg("sts=duration=600", "c"), []string{"C", "L700,1,1,e"}))
@@ -1157,7 +1278,7 @@ func fixedSTSScenarios() []Case {
 // upgraded TLS connection, each followed by another Connect of the same client.
 func fixedSTSPolicy() []Case {
 	var out []Case
-	for _, bits := range []string{"", "F", "D", "L"} {
+	for _, bits := range []string{"", "F", "D", "L", "DP"} {
 		for _, p := range stsPortVals {
 			for _, d := range stsDurVals {
 				tok := stsToken(p, d, 0)
@@ -1213,6 +1334,9 @@ func runSTSExpiry(c Case) Result {
 		bits := c[1]
 		cfg := girc.Config{Server: stsHost, Port: stsCfgPort, Nick: "me", User: "user", DisableSTS: stsHas(bits, 'D'),
 			SSL: stsHas(bits, 'L'), DisableSTSFallback: stsHas(bits, 'F')}
+		if stsHas(bits, 'P') {
+			cfg.SupportedCaps = map[string][]string{"sts": nil}
+		}
 		cl := girc.New(cfg)
 		if c[2] != "" {
 			ago, ok := stsNat(c[2])
@@ -1228,7 +1352,7 @@ func runSTSExpiry(c Case) Result {
 			}
 		}
 		oracle := ""
-		if has && (stsHas(bits, 'D') || stsHas(bits, 'L')) {
+		if has && (stsHas(bits, 'D') || stsHas(bits, 'L')) && !stsHas(bits, 'P') {
 			oracle = "sts-requested: sts is requestable with DisableSTS/SSL"
 		}
 		return Result{Obs: B(has), Oracle: oracle, Sig: "R" + B(has)}
@@ -1251,7 +1375,7 @@ func runSTSExpiry(c Case) Result {
 func genSTSExpiry(r *rand.Rand) Case {
 	switch r.Intn(4) {
 	case 0:
-		return Case{"R", Pick(r, "", "F", "D", "L", "DF", "LF", "DL"), Pick(r, "", "0", "5", "200", "290", "310", "400", "3600", "100000")}
+		return Case{"R", Pick(r, "", "F", "D", "L", "DF", "LF", "DL", "P", "DP", "LP", "FP", "DFP"), Pick(r, "", "0", "5", "200", "290", "310", "400", "3600", "100000")}
 	case 1:
 		return Case{"A", strconv.Itoa(r.Intn(70000) - 1000), ""}
 	}
@@ -1279,7 +1403,7 @@ func fixedSTSExpiry() []Case {
 	for _, p := range []int{-1, 0, 1, 20, 21, 6667, 6697, 65535, 70000} {
 		out = append(out, Case{"A", strconv.Itoa(p), ""})
 	}
-	for _, b := range []string{"", "F", "D", "L", "DF", "LF", "DL", "DLF"} {
+	for _, b := range []string{"", "F", "D", "L", "DF", "LF", "DL", "DLF", "P", "DP", "LP", "FP", "DFP", "DLP"} {
 		for _, a := range []string{"", "0", "5", "200", "290", "310", "400", "100000"} {
 			out = append(out, Case{"R", b, a})
 		}
